@@ -15,8 +15,24 @@ pub struct MuxOutput {
     pub run: MuxRun,
 }
 
+/// The sink before muxing: empty, or holding an older file (a repeating 251-byte pattern that
+/// contains no zero byte, so leftover bytes are never mistaken for a zero-size box or padding).
+pub fn initial_disk(sc: &MuxScenario) -> SimDisk {
+    if sc.preexisting == 0 {
+        return SimDisk::new();
+    }
+    let n = sc.preexisting.min(1 << 20) as usize;
+    let v: Vec<u8> = (0..n).map(|i| 1 + (i % 251) as u8).collect();
+    SimDisk::from_bytes(v)
+}
+
+/// End of the bytes the muxer produced (not of the sink, which may be longer).
+pub fn output_end(outp: &MuxOutput) -> u64 {
+    outp.run.end_pos.unwrap_or_else(|| outp.sim.borrow().disk.len())
+}
+
 pub fn execute(sc: &MuxScenario, skip: Option<&[bool]>, st: &mut Stats) -> MuxOutput {
-    let sim = Sim::shared(SimDisk::new());
+    let sim = Sim::shared(initial_disk(sc));
     sim.borrow_mut().set_transparent(sc.io.chunking, sc.io.intr_ppm, sc.io.io_seed);
     let run = run_mux(sc, &sim, skip);
     {
@@ -185,6 +201,8 @@ pub fn shape_and_probes(m: &IMovie, sc: &MuxScenario, st: &mut Stats) {
     st.probe("probe.mdat_largesize", m.mdat_large.iter().any(|x| *x));
     st.probe("probe.mvhd_version1", m.mvhd_version == 1);
     st.probe("probe.transparent_io_faults", sc.io.chunking != Chunking::Full || sc.io.intr_ppm > 0);
+    st.probe("probe.sink_starts_at_nonzero_position", sc.start_pos > 0);
+    st.probe("probe.sink_holds_older_longer_file", sc.preexisting > 0);
     st.distinct.insert(h);
 }
 
@@ -313,8 +331,9 @@ pub fn check_structure(prop: &str, m: &IMovie, model: &Model, file_end: u64, out
 }
 
 pub fn parse_output(outp: &MuxOutput, sc: &MuxScenario) -> Result<IMovie, indep::PErr> {
+    let end = output_end(outp);
     let s = outp.sim.borrow();
-    indep::parse(&s.disk, sc.start_pos, s.disk.len())
+    indep::parse(&s.disk, sc.start_pos, end)
 }
 
 /// C01 evaluation.
@@ -324,7 +343,7 @@ pub fn eval_c01(prop: &str, sc: &MuxScenario, st: &mut Stats) -> Vec<Violation> 
     let finished = check_calls(prop, sc, &outp.run, &mut out);
     if finished {
         let model = Model::build(prop, sc, &outp.run, &mut out);
-        check_readback(prop, &outp.sim, sc.start_pos, &model, true, &mut out);
+        check_readback(prop, &outp.sim, sc.start_pos, output_end(&outp), &model, true, &mut out);
         check_no_trace(prop, sc, &outp, st, &mut out);
         match parse_output(&outp, sc) {
             Ok(m) => shape_and_probes(&m, sc, st),
@@ -348,7 +367,7 @@ pub fn eval_c02(prop: &str, sc: &MuxScenario, st: &mut Stats) -> Vec<Violation> 
         let model = Model::build(prop, sc, &outp.run, &mut scratch);
         match parse_output(&outp, sc) {
             Ok(m) => {
-                let end = outp.sim.borrow().disk.len();
+                let end = output_end(&outp);
                 check_structure(prop, &m, &model, end, &mut out);
                 shape_and_probes(&m, sc, st);
             }
